@@ -4,6 +4,8 @@
 package transport
 
 //@ ifacegetters LookupTransport
+// A transport's own identity never changes.
+//@ ifacegetters Transport:GetUUID,GetPeerID
 
 //@ func (*lookupTransport).IsEquivalent
 //@   ensures ret ==> samegetters(d, other, LookupTransport)
